@@ -62,7 +62,15 @@ MISSED11 = {"C04/1": "the breakage (a spawner that waits for room is never woken
             "C18/1": "no junk token named an existing file with non-UTF-8 content behind an '@'; fixture tpsim/fixtures/latin1.txt added",
             "C19/1": "SimTransport.write_eof() never failed; it now raises ENOTCONN when the peer is already gone and this end has not been told yet, as shutdown(SHUT_WR) does",
             "C20/2": "only asyncio_taskpool's Queue itself was used; user subclasses mixing in asyncio.PriorityQueue / LifoQueue (either base order) added"}
-MISSED = MISSED11 if ROUND == 11 else MISSED10 if ROUND == 10 else MISSED9 if ROUND == 9 else MISSED8 if ROUND == 8 else MISSED7 if ROUND == 7 else MISSED6 if ROUND == 6 else {} if ROUND != 5 else {"C01/1": "the pool generator never assigned pool_size to an empty pool; added the resize_idle step (size assigned while the pool is empty, all C01 oracles continue with the new size)",
+MISSED12 = {"C03/2": "the callbacks were functions, bound methods, partials and plain callable objects - never an object that only asyncio.iscoroutinefunction() (not inspect's) recognises as a coroutine function; added callback kinds ak/gk/axk: an instance with a plain __call__ that returns a coroutine, tagged with asyncio's _is_coroutine marker (as unittest.mock.AsyncMock is)",
+            "C04/2": "every marked function handed back a native coroutine object; added function kind 'abc': the marked function returns a collections.abc.Coroutine that is not a native coroutine (delegating wrapper)",
+            "C07/2": "C07's runs had no oracle for its last clause (pending requests of other groups keep progressing): every progress observation (C04/C05 oracles) is now also charged to C07 as sibling_progress:* when a group was cancelled in that pool (outside the regions of the recorded findings F-EARLY/F-LOCK), and the phased scenarios cancel whole groups while flush()/gather_and_close() calls are waiting",
+            "C09/1": "the ledger filed an accepted request under the name the pool RETURNED, so a request whose explicit name was silently replaced never made that name 'taken'; the requested name now counts as taken as well, and duplicate attempts prefer the empty string when a group of that name is live",
+            "C12/2": "workers failed with plain exceptions only; added worker outcomes xg/xm: a BaseExceptionGroup that carries a CancelledError (alone, or next to an ordinary error) - nobody cancelled the task, it failed, and flush()/gather_and_close() must raise that very object",
+            "C16/2": "every extra member had a real docstring or none; the extended class now also has a method whose docstring is the empty string and a property whose docstring is whitespace only",
+            "C19/2": "the stop was requested exactly once; the stop step may now cancel the serving task twice, or once more later while clients keep the server waiting, and a serving task that ends as CANCELLED is a violation (usage/example_server.py awaits the task after cancelling it)",
+            "C20/2": "queue items were the running numbers (all true); items are now arbitrary distinct user values: every fourth a false-valued object, and 0, '', None, (), b'' once each"}
+MISSED = MISSED12 if ROUND == 12 else MISSED11 if ROUND == 11 else MISSED10 if ROUND == 10 else MISSED9 if ROUND == 9 else MISSED8 if ROUND == 8 else MISSED7 if ROUND == 7 else MISSED6 if ROUND == 6 else {} if ROUND != 5 else {"C01/1": "the pool generator never assigned pool_size to an empty pool; added the resize_idle step (size assigned while the pool is empty, all C01 oracles continue with the new size)",
           "C03/2": "callbacks were always closures; added callbacks that are bound methods of an object nothing else refers to (kinds sm/am/gm)",
           "C04/1": "the injected factory failure was always a FactoryError; the exception type now varies (FactoryError, TypeError, ValueError, KeyError, AttributeError)",
           "C04/2": "payload keyword names were always kw_x; added payload shapes whose keyword names coincide with the library's own parameter names (group_name, func, num, end_callback, self, args, kwargs ...)",
